@@ -154,6 +154,139 @@ Proof.
   rewrite skipn_all2; [reflexivity | rewrite repeat_length; lia].
 Qed.
 
+(** * SendValsetMsgForChain *)
+
+Lemma calls_of_app q1 q2 : calls_of (q1 ++ q2) = calls_of q1 ++ calls_of q2.
+Proof.
+  induction q1 as [|[c t v|c] q1 IH]; cbn; [reflexivity | exact IH | now rewrite IH].
+Qed.
+
+Lemma send_scan_calls c ts v q : calls_of (fst (send_scan c ts v q)) = calls_of q.
+Proof.
+  induction q as [|m r IH]; [reflexivity|]. cbn [send_scan].
+  destruct (negb (bytes_eqb (q_chain m) c)).
+  { destruct (send_scan c ts v r) as [r' b]. cbn in *. destruct m; cbn; now rewrite IH. }
+  destruct (negb (bytes_eqb (q_ts m) ts)); [reflexivity|].
+  destruct m as [c' t' v'|cl].
+  - destruct (v' =? v); [reflexivity | exact IH].
+  - destruct (send_scan c ts v r) as [r' b]. cbn in *. now rewrite IH.
+Qed.
+
+Lemma send_valset_calls c ts v q : calls_of (send_valset c ts v q) = calls_of q.
+Proof.
+  unfold send_valset. pose proof (send_scan_calls c ts v q) as H.
+  destruct (send_scan c ts v q) as [q' b]. cbn in H. destruct b; [|exact H].
+  rewrite calls_of_app, H. cbn. now rewrite app_nil_r.
+Qed.
+
+Definition count_valsets (c : bytes) (q : list qmsg) : nat := length (filter (is_valset_of c) q).
+
+(** every message of chain [c] carries the turnstone id [ts] *)
+Definition ts_ok_for (c ts : bytes) (q : list qmsg) : Prop :=
+  forall m, In m q -> q_chain m = c -> q_ts m = ts.
+
+Lemma ts_ok_for_tail c ts m r : ts_ok_for c ts (m :: r) -> ts_ok_for c ts r.
+Proof. intros H x Hx. apply H. now right. Qed.
+
+Lemma is_valset_vid_of c v m : is_valset_vid c v m = true -> is_valset_of c m = true.
+Proof. destruct m as [c' t' v'|cl]; cbn; [|discriminate]. intros H. now apply andb_true_iff in H as [H _]. Qed.
+
+Lemma is_valset_of_chain c m : is_valset_of c m = true -> q_chain m = c.
+Proof. destruct m as [c' t' v'|cl]; cbn; [|discriminate]. apply bytes_eqb_eq. Qed.
+
+Lemma has_valset_count c v q : has_valset c v q = true -> (1 <= count_valsets c q)%nat.
+Proof.
+  unfold has_valset, count_valsets. induction q as [|m r IH]; [discriminate|]. cbn.
+  destruct (is_valset_vid c v m) eqn:E.
+  - apply is_valset_vid_of in E. rewrite E. cbn. lia.
+  - cbn. intros H. specialize (IH H). destruct (is_valset_of c m); cbn; lia.
+Qed.
+
+(** no update with the same id is queued: every update of the chain is deleted, the loop ends *)
+Lemma scan_no_same c ts v q :
+  ts_ok_for c ts q -> has_valset c v q = false -> send_scan c ts v q = (drop_valsets c q, true).
+Proof.
+  induction q as [|m r IH]; intros T H; [reflexivity|].
+  unfold has_valset in H. cbn [existsb] in H. apply orb_false_iff in H as [Hm Hr].
+  specialize (IH (ts_ok_for_tail _ _ _ _ T) Hr).
+  cbn [send_scan]. unfold drop_valsets. cbn [filter].
+  destruct (bytes_eqb (q_chain m) c) eqn:Ec; cbn [negb].
+  - apply bytes_eqb_eq in Ec. rewrite (T m (or_introl eq_refl) Ec), bytes_eqb_refl. cbn [negb].
+    destruct m as [c' t' v'|cl].
+    + cbn in Ec. subst c'. cbn in Hm. rewrite bytes_eqb_refl in Hm. cbn in Hm. rewrite Hm.
+      cbn. rewrite bytes_eqb_refl. cbn. exact IH.
+    + rewrite IH. reflexivity.
+  - rewrite IH. assert (V : is_valset_of c m = false).
+    { destruct m as [c' t' v'|cl]; [exact Ec | reflexivity]. }
+    now rewrite V.
+Qed.
+
+(** an update with the same id is queued (and it is the only update of the chain): nothing happens *)
+Lemma scan_same c ts v q :
+  ts_ok_for c ts q -> (count_valsets c q <= 1)%nat -> has_valset c v q = true ->
+  send_scan c ts v q = (q, false).
+Proof.
+  induction q as [|m r IH]; intros T C H; [discriminate|].
+  cbn [send_scan].
+  destruct (bytes_eqb (q_chain m) c) eqn:Ec; cbn [negb].
+  - apply bytes_eqb_eq in Ec. rewrite (T m (or_introl eq_refl) Ec), bytes_eqb_refl. cbn [negb].
+    destruct m as [c' t' v'|cl].
+    + destruct (v' =? v) eqn:Ev; [reflexivity|]. exfalso.
+      cbn in Ec. subst c'. unfold has_valset in H. cbn in H. rewrite bytes_eqb_refl, Ev in H. cbn in H.
+      apply has_valset_count in H. unfold count_valsets in C. cbn in C. rewrite bytes_eqb_refl in C.
+      cbn in C. unfold count_valsets in H. lia.
+    + unfold has_valset in H. cbn in H. unfold count_valsets in C. cbn in C.
+      rewrite (IH (ts_ok_for_tail _ _ _ _ T) C H). reflexivity.
+  - assert (V : is_valset_of c m = false).
+    { destruct m as [c' t' v'|cl]; [exact Ec | reflexivity]. }
+    assert (W : is_valset_vid c v m = false).
+    { destruct (is_valset_vid c v m) eqn:E; [apply is_valset_vid_of in E; congruence | reflexivity]. }
+    unfold has_valset in H. cbn in H. rewrite W in H. cbn in H.
+    unfold count_valsets in C. cbn in C. rewrite V in C.
+    rewrite (IH (ts_ok_for_tail _ _ _ _ T) C H). reflexivity.
+Qed.
+
+Lemma send_valset_closed c ts v q :
+  ts_ok_for c ts q -> (count_valsets c q <= 1)%nat ->
+  send_valset c ts v q = if has_valset c v q then q else drop_valsets c q ++ [QValset c ts v].
+Proof.
+  intros T C. unfold send_valset. destruct (has_valset c v q) eqn:H.
+  - now rewrite (scan_same _ _ _ _ T C H).
+  - now rewrite (scan_no_same _ _ _ _ T H).
+Qed.
+
+Lemma count_drop_same c q : count_valsets c (drop_valsets c q) = 0%nat.
+Proof.
+  unfold count_valsets, drop_valsets. induction q as [|m r IH]; [reflexivity|]. cbn.
+  destruct (is_valset_of c m) eqn:E; cbn; [exact IH | now rewrite E].
+Qed.
+
+Lemma count_drop_other c c' q : c' <> c -> count_valsets c' (drop_valsets c q) = count_valsets c' q.
+Proof.
+  intros N. unfold count_valsets, drop_valsets. induction q as [|m r IH]; [reflexivity|]. cbn.
+  destruct (is_valset_of c m) eqn:E; cbn.
+  - destruct (is_valset_of c' m) eqn:E'; [|exact IH].
+    apply is_valset_of_chain in E. apply is_valset_of_chain in E'. congruence.
+  - destruct (is_valset_of c' m); cbn; now rewrite IH.
+Qed.
+
+Lemma count_app c q1 q2 : count_valsets c (q1 ++ q2) = (count_valsets c q1 + count_valsets c q2)%nat.
+Proof. unfold count_valsets. now rewrite filter_app, app_length. Qed.
+
+Lemma drop_valsets_incl c q m : In m (drop_valsets c q) -> In m q.
+Proof. unfold drop_valsets. intros H. now apply filter_In in H as [H _]. Qed.
+
+(** messages of the other chains' queues are not touched *)
+Definition others (c : bytes) (q : list qmsg) : list qmsg := filter (fun m => negb (bytes_eqb (q_chain m) c)) q.
+
+Lemma others_drop c q : others c (drop_valsets c q) = others c q.
+Proof.
+  unfold others, drop_valsets. induction q as [|m r IH]; [reflexivity|]. cbn.
+  destruct (is_valset_of c m) eqn:E; cbn.
+  - apply is_valset_of_chain in E. rewrite E, bytes_eqb_refl. cbn. exact IH.
+  - destruct (negb (bytes_eqb (q_chain m) c)); now rewrite IH.
+Qed.
+
 (** * The machine *)
 
 Section Proofs.
@@ -163,6 +296,7 @@ Section Proofs.
   Notation create := (create dec_def dec_pay).
   Notation exec_raw := (exec_raw dec_def dec_pay).
   Notation exec := (exec dec_def dec_pay).
+  Notation msg_exec := (msg_exec dec_def dec_pay).
   Notation wasm_exec := (wasm_exec dec_def dec_pay).
   Notation legacy_exec := (legacy_exec dec_def dec_pay).
   Notation step_res := (step_res dec_def dec_pay).
@@ -178,7 +312,7 @@ Section Proofs.
      find_job (jobs s) (j_id j) = None /\ j_owner j <> [] /\ vb = true /\ j_ctype j = evm_type /\
      verify_job dec_def dec_pay (j_def j) (j_payload j) = true).
   Proof.
-    unfold create.
+    unfold Jobs.create.
     destruct (existsb (fun k => bytes_eqb (j_id k) (j_id j)) (jobs s)) eqn:Ex; [now left|].
     destruct (j_owner j) as [|o ow] eqn:Ow; [now left|].
     destruct vb; [|now left]. cbn [negb].
@@ -193,10 +327,76 @@ Section Proofs.
     - now apply bytes_eqb_eq.
   Qed.
 
+  (** ** the valset hook *)
+
+  Lemma hook_jobs s c pre : jobs (hook s c pre) = jobs s.
+  Proof. unfold hook. destruct pre; [destruct (chain_info (chains s) c)|]; reflexivity. Qed.
+  Lemma hook_chains s c pre : chains (hook s c pre) = chains s.
+  Proof. unfold hook. destruct pre; [destruct (chain_info (chains s) c)|]; reflexivity. Qed.
+  Lemma hook_calls s c pre : calls_of (queue (hook s c pre)) = calls_of (queue s).
+  Proof.
+    unfold hook. destruct pre; [destruct (chain_info (chains s) c)|]; try reflexivity.
+    cbn. apply send_valset_calls.
+  Qed.
+
+  (** invariant of the live queue: every message carries the turnstone id of its chain, and a
+      chain's queue holds at most one valset update *)
+  Definition q_inv (chs : list (bytes * bytes)) (q : list qmsg) : Prop :=
+    (forall m, In m q -> chain_info chs (q_chain m) = Some (q_ts m)) /\
+    (forall c, count_valsets c q <= 1)%nat.
+
+  (** what the hook does to a queue that satisfies the invariant *)
+  Definition hook_queue (chs : list (bytes * bytes)) (q : list qmsg) (c : bytes) (pre : option Z) : list qmsg :=
+    match pre, chain_info chs c with
+    | Some v, Some ts => if has_valset c v q then q else drop_valsets c q ++ [QValset c ts v]
+    | _, _ => q
+    end.
+
+  Lemma hook_closed s c pre :
+    q_inv (chains s) (queue s) -> queue (hook s c pre) = hook_queue (chains s) (queue s) c pre.
+  Proof.
+    intros [T C]. unfold hook, hook_queue. destruct pre as [v|]; [|reflexivity].
+    destruct (chain_info (chains s) c) as [ts|] eqn:E; [|reflexivity]. cbn.
+    apply send_valset_closed; [|apply C].
+    intros m Hm Hc. specialize (T m Hm). rewrite Hc, E in T. now inversion T.
+  Qed.
+
+  Lemma hook_queue_inv chs q c pre : q_inv chs q -> q_inv chs (hook_queue chs q c pre).
+  Proof.
+    intros [T C]. unfold hook_queue. destruct pre as [v|]; [|now split].
+    destruct (chain_info chs c) as [ts|] eqn:E; [|now split].
+    destruct (has_valset c v q); [now split|]. split.
+    - intros m Hm. apply in_app_or in Hm as [Hm|[<-|[]]]; [apply T; eapply drop_valsets_incl; eauto | exact E].
+    - intros c'. rewrite count_app. destruct (bytes_eqb c' c) eqn:Ecc.
+      + apply bytes_eqb_eq in Ecc. subst c'. rewrite count_drop_same. unfold count_valsets. cbn.
+        rewrite bytes_eqb_refl. cbn. lia.
+      + apply bytes_eqb_neq in Ecc. rewrite (count_drop_other _ _ _ Ecc). unfold count_valsets at 2. cbn.
+        assert (N : bytes_eqb c c' = false) by (apply bytes_eqb_neq; congruence).
+        rewrite N. cbn. specialize (C c'). lia.
+  Qed.
+
+  Lemma hook_queue_calls chs q c pre : calls_of (hook_queue chs q c pre) = calls_of q.
+  Proof.
+    unfold hook_queue. destruct pre as [v|]; [|reflexivity].
+    destruct (chain_info chs c) as [ts|]; [|reflexivity].
+    destruct (has_valset c v q); [reflexivity|].
+    rewrite calls_of_app. cbn. rewrite app_nil_r.
+    unfold drop_valsets. induction q as [|[c' t' v'|cl] r IH]; cbn; [reflexivity | | now rewrite IH].
+    destruct (bytes_eqb c' c); cbn; exact IH.
+  Qed.
+
+  Lemma hook_queue_others chs q c pre : others c (hook_queue chs q c pre) = others c q.
+  Proof.
+    unfold hook_queue. destruct pre as [v|]; [|reflexivity].
+    destruct (chain_info chs c) as [ts|]; [|reflexivity].
+    destruct (has_valset c v q); [reflexivity|].
+    unfold others at 1. rewrite filter_app. cbn. rewrite bytes_eqb_refl. cbn. rewrite app_nil_r.
+    apply others_drop.
+  Qed.
+
   (** ** execute *)
 
-  Definition pre_state (s : state) (x : exec_in) (j : job) : state :=
-    if x_pre x then enqueue s (QValset (j_cref j)) else s.
+  Definition pre_state (s : state) (x : exec_in) (j : job) : state := hook s (j_cref j) (x_pre x).
 
   (** everything a successful run establishes *)
   Record run_facts (s : state) (x : exec_in) (j : job) (c : call) : Prop := {
@@ -216,7 +416,7 @@ Section Proofs.
     exec_raw s x = (s', Ok) ->
     exists j c, run_facts s x j c /\ s' = enqueue (pre_state s x j) (QCall c).
   Proof.
-    unfold exec_raw. cbv zeta.
+    unfold Jobs.exec_raw. cbv zeta.
     destruct (job_at s (x_id x)) as [j|] eqn:Hj; [|discriminate].
     destruct (nonempty (x_in x) && negb (j_modifiable j)) eqn:Hg; [discriminate|].
     destruct (dec_def (j_def j)) as [[abi addr]|] eqn:Hd; [|discriminate].
@@ -241,7 +441,7 @@ Section Proofs.
     exec_raw s x = (s', Err e) ->
     s' = s \/ exists j, job_at s (x_id x) = Some j /\ s' = pre_state s x j.
   Proof.
-    unfold exec_raw. cbv zeta.
+    unfold Jobs.exec_raw. cbv zeta.
     destruct (job_at s (x_id x)) as [j|] eqn:Hj; [|intros H; inversion H; now left].
     intros H. right. exists j. split; [reflexivity|]. unfold pre_state.
     destruct (nonempty (x_in x) && negb (j_modifiable j)); [now inversion H|].
@@ -257,7 +457,7 @@ Section Proofs.
     exec s x = (s', Ok) ->
     exists j c, run_facts s x j c /\ s' = enqueue (pre_state s x j) (QCall c).
   Proof.
-    unfold exec. destruct (exec_raw s x) as [s1 [|e]] eqn:E; [|discriminate].
+    unfold Jobs.exec. destruct (exec_raw s x) as [s1 [|e]] eqn:E; [|discriminate].
     intros H; inversion H; subst. now apply exec_raw_ok.
   Qed.
 
@@ -265,39 +465,30 @@ Section Proofs.
     exec s x = (s', Err e) ->
     s' = s \/ (x_atomic x = false /\ exists j, job_at s (x_id x) = Some j /\ s' = pre_state s x j).
   Proof.
-    unfold exec. destruct (exec_raw s x) as [s1 [|e1]] eqn:E; [discriminate|].
+    unfold Jobs.exec. destruct (exec_raw s x) as [s1 [|e1]] eqn:E; [discriminate|].
     intros H; inversion H; subst; clear H.
     destruct (x_atomic x); [now left|].
     apply exec_raw_err in E as [->|E]; [now left | right; now split].
   Qed.
 
   Lemma pre_state_jobs s x j : jobs (pre_state s x j) = jobs s.
-  Proof. unfold pre_state. now destruct (x_pre x). Qed.
+  Proof. apply hook_jobs. Qed.
   Lemma pre_state_chains s x j : chains (pre_state s x j) = chains s.
-  Proof. unfold pre_state. now destruct (x_pre x). Qed.
-  Lemma pre_state_queue s x j :
-    queue (pre_state s x j) = queue s ++ (if x_pre x then [QValset (j_cref j)] else []).
-  Proof. unfold pre_state. destruct (x_pre x); cbn; [reflexivity | now rewrite app_nil_r]. Qed.
-
-  Lemma calls_of_app q1 q2 : calls_of (q1 ++ q2) = calls_of q1 ++ calls_of q2.
-  Proof.
-    induction q1 as [|[c|c] q1 IH]; cbn; [reflexivity | exact IH | now rewrite IH].
-  Qed.
-
+  Proof. apply hook_chains. Qed.
   Lemma pre_state_calls s x j : calls_of (queue (pre_state s x j)) = calls_of (queue s).
-  Proof.
-    rewrite pre_state_queue, calls_of_app. destruct (x_pre x); cbn; now rewrite app_nil_r.
-  Qed.
+  Proof. apply hook_calls. Qed.
 
-  (** the bindings' request as a keeper request *)
-  Definition wasm_req (id raw caddr : bytes) (pre : bool) (pick : option Z) (atm : bool) : exec_in :=
+  (** the requests of the entry points as keeper requests *)
+  Definition wasm_req (id raw caddr : bytes) (pre : option Z) (pick : option Z) (atm : bool) : exec_in :=
     mkExec id (Some (wasm_wrap raw)) (Some caddr) (Some caddr) pre pick atm.
+  Definition msg_req (creator id : bytes) (inp : option bytes) (pre : option Z) (pick : option Z) (atm : bool) : exec_in :=
+    mkExec id inp (Some creator) None pre pick atm.
 
   Lemma wasm_exec_cases s id raw caddr pre pick atm :
     (wasm_exec s id raw caddr pre pick atm = (s, Err EWasmInvalid) /\ (id = [] \/ raw = [])) \/
     (wasm_exec s id raw caddr pre pick atm = exec s (wasm_req id raw caddr pre pick atm) /\ id <> [] /\ raw <> []).
   Proof.
-    unfold wasm_exec, wasm_req. destruct id as [|i id]; [left; split; [now destruct raw | now left]|].
+    unfold Jobs.wasm_exec, wasm_req. destruct id as [|i id]; [left; split; [now destruct raw | now left]|].
     destruct raw as [|r raw]; [left; split; [reflexivity | now right]|].
     right. repeat split; discriminate.
   Qed.
@@ -306,8 +497,17 @@ Section Proofs.
     (legacy_exec s id raw caddr pre pick atm = (s, Err EWasmInvalid) /\ id = []) \/
     (legacy_exec s id raw caddr pre pick atm = exec s (wasm_req id raw caddr pre pick atm) /\ id <> []).
   Proof.
-    unfold legacy_exec, wasm_req. destruct id as [|i id]; [left; now split|].
+    unfold Jobs.legacy_exec, wasm_req. destruct id as [|i id]; [left; now split|].
     right. split; [reflexivity | discriminate].
+  Qed.
+
+  Lemma msg_exec_cases s cr au ac id inp pre pick atm :
+    (exists e, msg_exec s cr au ac id inp pre pick atm = (s, Err e) /\ (au = false \/ ac = false)) \/
+    (msg_exec s cr au ac id inp pre pick atm = exec s (msg_req cr id inp pre pick atm) /\ au = true /\ ac = true).
+  Proof.
+    unfold Jobs.msg_exec, msg_req. destruct au; cbn [negb]; [|left; eexists; split; [reflexivity | now left]].
+    destruct ac; cbn [negb]; [|left; eexists; split; [reflexivity | now right]].
+    right. now repeat split.
   Qed.
 
   (** ** one step: what can happen to the three components *)
@@ -315,10 +515,11 @@ Section Proofs.
   (** the request as seen by the keeper, for execute operations *)
   Definition exec_req (o : op) : option exec_in :=
     match o with
-    | OCreate _ _ => None
     | OExec x => Some x
-    | OWasmExec id raw caddr pre pick atm => Some (wasm_req id raw caddr pre pick atm)
-    | OLegacyExec id raw caddr pre pick atm => Some (wasm_req id raw caddr pre pick atm)
+    | OMsgExec cr _ _ id inp pre pick atm => Some (msg_req cr id inp pre pick atm)
+    | OWasmExec id raw caddr _ pre pick atm => Some (wasm_req id raw caddr pre pick atm)
+    | OLegacyExec id raw caddr _ pre pick atm => Some (wasm_req id raw caddr pre pick atm)
+    | _ => None
     end.
 
   Inductive step_shape (s : state) (o : op) : state * result -> Prop :=
@@ -332,35 +533,44 @@ Section Proofs.
       step_shape s o (enqueue (pre_state s x j) (QCall c), Ok)
   | SFailedAfterHook x j e :
       exec_req o = Some x -> x_atomic x = false -> job_at s (x_id x) = Some j ->
-      step_shape s o (pre_state s x j, Err e).
+      step_shape s o (pre_state s x j, Err e)
+  | SPublished c pre : o = OPublish c pre -> step_shape s o (hook s c pre, Ok)
+  | SGenesis : o = OGenesisRoundTrip -> step_shape s o (mkState (chains s) [] (queue s), Ok)
+  | SBlock : o = OBlock -> step_shape s o (s, Ok).
+
+  Lemma exec_shape s o x : exec_req o = Some x -> step_shape s o (exec s x).
+  Proof.
+    intros R. destruct (exec s x) as [s' [|e]] eqn:E.
+    - apply exec_ok in E as (j & c & RF & ->). now apply (SRan s o x j c).
+    - apply exec_err in E as [-> | (A & j & J & ->)]; [constructor|].
+      now apply (SFailedAfterHook s o x j e).
+  Qed.
 
   Lemma step_res_shape s o : step_shape s o (step_res s o).
   Proof.
-    destruct o as [j vb | x | id raw caddr pre pick atm | id raw caddr pre pick atm]; cbn [Jobs.step_res].
+    destruct o as [j vb | x | cr au ac id inp pre pick atm | id raw caddr cl pre pick atm
+                  | id raw caddr cl pre pick atm | c pre | | ]; cbn [Jobs.step_res].
     - destruct (create_spec s j vb) as [E | (E & F & O & V & C & VJ)]; rewrite E.
       + constructor.
       + now apply (SCreated s _ j vb).
-    - destruct (exec s x) as [s' [|e]] eqn:E.
-      + apply exec_ok in E as (j & c & RF & ->). now apply (SRan s _ x j c).
-      + apply exec_err in E as [-> | (A & j & J & ->)]; [constructor|].
-        now apply (SFailedAfterHook s _ x j e).
+    - now apply exec_shape.
+    - destruct (msg_exec_cases s cr au ac id inp pre pick atm) as [(e & E & _) | (E & _ & _)]; rewrite E.
+      + constructor.
+      + now apply exec_shape.
     - destruct (wasm_exec_cases s id raw caddr pre pick atm) as [[E _] | (E & _ & _)]; rewrite E.
       + constructor.
-      + destruct (exec s _) as [s' [|e]] eqn:E2.
-        * apply exec_ok in E2 as (j & c & RF & ->). now apply (SRan s _ _ j c).
-        * apply exec_err in E2 as [-> | (A & j & J & ->)]; [constructor|].
-          now apply (SFailedAfterHook s _ _ j e).
+      + now apply exec_shape.
     - destruct (legacy_exec_cases s id raw caddr pre pick atm) as [[E _] | (E & _)]; rewrite E.
       + constructor.
-      + destruct (exec s _) as [s' [|e]] eqn:E2.
-        * apply exec_ok in E2 as (j & c & RF & ->). now apply (SRan s _ _ j c).
-        * apply exec_err in E2 as [-> | (A & j & J & ->)]; [constructor|].
-          now apply (SFailedAfterHook s _ _ j e).
+      + now apply exec_shape.
+    - now apply (SPublished s _ c pre).
+    - now apply SGenesis.
+    - now apply SBlock.
   Qed.
 
   Lemma step_chains s o : chains (step s o) = chains s.
   Proof.
-    unfold Jobs.step. destruct (step_res_shape s o); cbn; auto using pre_state_chains.
+    unfold Jobs.step. destruct (step_res_shape s o); cbn; auto using pre_state_chains, hook_chains.
   Qed.
 
   Lemma run_from_app s ops ops' : run_from s (ops ++ ops') = run_from (run_from s ops) ops'.
@@ -375,6 +585,35 @@ Section Proofs.
     now rewrite run_from_snoc, step_chains.
   Qed.
 
+  (** ** the queue invariant holds in every reachable state *)
+
+  Lemma step_inv s o : q_inv (chains s) (queue s) -> q_inv (chains (step s o)) (queue (step s o)).
+  Proof.
+    intros I. rewrite step_chains. unfold Jobs.step.
+    destruct (step_res_shape s o) as [e | j vb _ _ _ _ _ _ | x j c _ RF | x j e _ _ _ | c pre _ | _ | _]; cbn;
+      try exact I.
+    - unfold pre_state. rewrite (hook_closed _ _ _ I).
+      destruct (hook_queue_inv _ _ (j_cref j) (x_pre x) I) as [T C].
+      destruct RF as [_ _ _ _ (C1 & C2) _ _]. split.
+      + intros m Hm. apply in_app_or in Hm as [Hm|[<-|[]]]; [now apply T|]. cbn. now rewrite C1.
+      + intros c'. rewrite count_app. unfold count_valsets at 2. cbn. specialize (C c'). lia.
+    - unfold pre_state. rewrite (hook_closed _ _ _ I). now apply hook_queue_inv.
+    - rewrite (hook_closed _ _ _ I). now apply hook_queue_inv.
+  Qed.
+
+  Lemma run_inv chs ops : q_inv chs (queue (run chs ops)).
+  Proof.
+    rewrite <- (run_chains chs ops) at 1. unfold Jobs.run.
+    induction ops as [|o ops IH] using rev_ind.
+    - split; [intros m [] | intros c; cbn; lia].
+    - rewrite run_from_snoc. now apply step_inv.
+  Qed.
+
+  Theorem queue_invariants chs ops :
+    (forall m, In m (queue (run chs ops)) -> chain_info chs (q_chain m) = Some (q_ts m)) /\
+    (forall c, count_valsets c (queue (run chs ops)) <= 1)%nat.
+  Proof. exact (run_inv chs ops). Qed.
+
   (** ** job ids are unique *)
 
   Lemma find_job_none_notin js id :
@@ -388,8 +627,8 @@ Section Proofs.
   Lemma step_nodup s o : NoDup (map j_id (jobs s)) -> NoDup (map j_id (jobs (step s o))).
   Proof.
     intros N. unfold Jobs.step.
-    destruct (step_res_shape s o) as [e | j vb _ _ F _ _ _ | x j c _ _ | x j e _ _ _]; cbn;
-      rewrite ?pre_state_jobs; auto.
+    destruct (step_res_shape s o) as [e | j vb _ _ F _ _ _ | x j c _ _ | x j e _ _ _ | c pre _ | _ | _]; cbn;
+      rewrite ?pre_state_jobs, ?hook_jobs; auto; [|constructor].
     rewrite map_app. cbn. apply NoDup_snoc; auto. now apply find_job_none_notin.
   Qed.
 
@@ -411,49 +650,70 @@ Section Proofs.
     destruct (bytes_eqb (j_id h) id); auto.
   Qed.
 
-  Lemma step_job_at s o id j : job_at s id = Some j -> job_at (step s o) id = Some j.
+  Lemma step_job_at s o id j :
+    o <> OGenesisRoundTrip -> job_at s id = Some j -> job_at (step s o) id = Some j.
   Proof.
-    unfold job_at, Jobs.step. intros H.
-    destruct (step_res_shape s o); cbn; rewrite ?pre_state_jobs; auto.
+    unfold job_at, Jobs.step. intros NG H.
+    destruct (step_res_shape s o); cbn; rewrite ?pre_state_jobs, ?hook_jobs; auto; [|contradiction].
     now apply find_job_app_some.
   Qed.
 
   Lemma job_immutable_from s ops id j :
+    ~ In OGenesisRoundTrip ops ->
     job_at s id = Some j -> job_at (run_from s ops) id = Some j.
   Proof.
-    intros H. induction ops as [|o ops IH] using rev_ind; [exact H|].
-    rewrite run_from_snoc. now apply step_job_at.
+    intros NG H. induction ops as [|o ops IH] using rev_ind; [exact H|].
+    rewrite run_from_snoc. apply step_job_at.
+    - intros ->. apply NG. apply in_or_app. right. now left.
+    - apply IH. intros I. apply NG. apply in_or_app. now left.
   Qed.
 
+  (** No sequence of requests of any entry point, snapshot publications and block hooks changes a
+      stored job.  (The one operation that is excluded is not a request: a genesis export/import of
+      the module, which drops every job -- see [genesis_round_trip_drops_jobs].) *)
   Theorem job_immutable chs ops ops' id j :
+    ~ In OGenesisRoundTrip ops' ->
     job_at (run chs ops) id = Some j -> job_at (run chs (ops ++ ops')) id = Some j.
   Proof.
     unfold Jobs.run. rewrite run_from_app. apply job_immutable_from.
   Qed.
 
   (** the job list itself only grows at the end: no entry is rewritten or removed *)
-  Lemma step_jobs_prefix s o : exists l, jobs (step s o) = jobs s ++ l.
+  Lemma step_jobs_prefix s o : o <> OGenesisRoundTrip -> exists l, jobs (step s o) = jobs s ++ l.
   Proof.
-    unfold Jobs.step. destruct (step_res_shape s o); cbn; rewrite ?pre_state_jobs;
-      try (exists []; now rewrite app_nil_r). now eexists.
+    intros NG. unfold Jobs.step. destruct (step_res_shape s o); cbn; rewrite ?pre_state_jobs, ?hook_jobs;
+      try contradiction; try (exists []; now rewrite app_nil_r). now eexists.
   Qed.
 
   Theorem jobs_only_appended chs ops ops' :
+    ~ In OGenesisRoundTrip ops' ->
     exists l, jobs (run chs (ops ++ ops')) = jobs (run chs ops) ++ l.
   Proof.
-    unfold Jobs.run. rewrite run_from_app. generalize (run_from (init chs) ops) as s. intros s.
+    unfold Jobs.run. rewrite run_from_app. generalize (run_from (init chs) ops) as s. intros s NG.
     induction ops' as [|o ops' IH] using rev_ind; [exists []; now rewrite app_nil_r|].
-    rewrite run_from_snoc. destruct IH as [l IH]. destruct (step_jobs_prefix (run_from s ops') o) as [l' E].
+    rewrite run_from_snoc.
+    destruct IH as [l IH]. { intros I. apply NG. apply in_or_app. now left. }
+    destruct (step_jobs_prefix (run_from s ops') o) as [l' E].
+    { intros ->. apply NG. apply in_or_app. right. now left. }
     exists (l ++ l'). now rewrite E, IH, app_assoc.
   Qed.
+
+  (** Across a genesis export / import of the scheduler module: the exported state carries no jobs
+      and the import writes none, so the store is empty afterwards -- nothing is created or altered
+      by the import, everything is lost.  The turnstone queues are not the module's. *)
+  Theorem genesis_round_trip_drops_jobs s :
+    jobs (step s OGenesisRoundTrip) = [] /\ queue (step s OGenesisRoundTrip) = queue s /\
+    chains (step s OGenesisRoundTrip) = chains s /\ snd (step_res s OGenesisRoundTrip) = Ok.
+  Proof. now repeat split. Qed.
 
   (** every stored job is, field for field, the job of an accepted create request of the history
       (in particular its owner is that request's creator) *)
   Lemma step_job_origin s o j :
     In j (jobs (step s o)) -> In j (jobs s) \/ o = OCreate j true.
   Proof.
-    unfold Jobs.step. destruct (step_res_shape s o) as [e | k vb -> -> _ _ _ _ | x k c _ _ | x k e _ _ _];
-      cbn; rewrite ?pre_state_jobs; auto.
+    unfold Jobs.step.
+    destruct (step_res_shape s o) as [e | k vb -> -> _ _ _ _ | x k c _ _ | x k e _ _ _ | c pre _ | _ | _];
+      cbn; rewrite ?pre_state_jobs, ?hook_jobs; auto; [|intros []].
     intros H. apply in_app_or in H as [H|[<-|[]]]; auto.
   Qed.
 
@@ -461,6 +721,18 @@ Section Proofs.
     In j (jobs (run chs ops)) -> In (OCreate j true) ops.
   Proof.
     unfold Jobs.run. induction ops as [|o ops IH] using rev_ind; [intros []|].
+    rewrite run_from_snoc. intros H. apply in_or_app.
+    apply step_job_origin in H as [H | ->]; [left; auto | right; now left].
+  Qed.
+
+  (** stronger: the create request that stored the job came after the last genesis round trip *)
+  Theorem stored_job_created_since_last_round_trip chs ops ops' j :
+    In j (jobs (run chs (ops ++ OGenesisRoundTrip :: ops'))) -> In (OCreate j true) ops'.
+  Proof.
+    unfold Jobs.run. rewrite run_from_app. cbn [Jobs.run_from fold_left].
+    change (fold_left step ops' ?s) with (run_from s ops').
+    generalize (run_from (init chs) ops) as s0. intros s0.
+    induction ops' as [|o ops' IH] using rev_ind; [intros []|].
     rewrite run_from_snoc. intros H. apply in_or_app.
     apply step_job_origin in H as [H | ->]; [left; auto | right; now left].
   Qed.
@@ -474,8 +746,14 @@ Section Proofs.
     exists j c,
       (* the job exists, and is not touched *)
       job_at s (x_id x) = Some j /\ jobs (step s o) = jobs s /\
-      (* exactly one call, after at most one valset update for the job's chain *)
-      queue (step s o) = queue s ++ (if x_pre x then [QValset (j_cref j)] else []) ++ [QCall c] /\
+      (* exactly one call, after what the valset hook did to the queue of the job's chain: nothing,
+         or every queued valset update of that chain replaced by exactly one new one *)
+      queue (step s o) =
+        match x_pre x with
+        | Some v => if has_valset (j_cref j) v (queue s) then queue s
+                    else drop_valsets (j_cref j) (queue s) ++ [QValset (j_cref j) (c_turnstone c) v]
+        | None => queue s
+        end ++ [QCall c] /\
       (* on the job's chain, to the job's contract, assigned as selected *)
       c_chain c = j_cref j /\ chain_info chs (j_cref j) = Some (c_turnstone c) /\
       (exists abi, dec_def (j_def j) = Some (abi, c_contract c)) /\
@@ -491,13 +769,14 @@ Section Proofs.
           c_payload c = b ++ sfx).
   Proof.
     intros s Hreq Hok. unfold Jobs.step.
-    destruct (step_res_shape s o) as [e | k vb -> _ _ _ _ _ | x' j c Hx RF | x' j e _ _ _]; cbn in Hok;
-      try discriminate.
+    pose proof (run_inv chs ops) as I. fold s in I. rewrite <- (run_chains chs ops) in I. fold s in I.
+    destruct (step_res_shape s o) as [e | k vb -> _ _ _ _ _ | x' j c Hx RF | x' j e _ _ _ | c' pre E | E | E];
+      cbn in Hok; try discriminate; try (subst o; discriminate).
     rewrite Hreq in Hx. inversion Hx; subst x'; clear Hx.
     destruct RF as [J G (hx & b & sfx & P1 & P2 & P3 & P4) (abi & D1 & D2) (C1 & C2) (I1 & I2 & I3) K].
     exists j, c. cbn.
-    rewrite pre_state_jobs, pre_state_queue, <- app_assoc.
-    subst s. rewrite run_chains in C2.
+    rewrite pre_state_jobs. unfold pre_state. rewrite (hook_closed _ _ _ I). unfold hook_queue. rewrite C2.
+    assert (C2' := C2). subst s. rewrite run_chains in C2'.
     repeat split; auto.
     - now exists abi.
     - intros M. destruct (nonempty (x_in x)); [|reflexivity]. rewrite G in M; [discriminate | reflexivity].
@@ -506,20 +785,22 @@ Section Proofs.
   Qed.
 
   (** The contract path, end to end: the bytes a contract passes to the binding are the bytes of
-      the call (given only that Go's JSON decoder reads back the document the binding printed). *)
-  Theorem wasm_execute_calls_with_raw_payload chs ops id raw caddr pre pick atm :
+      the call (given only that Go's JSON decoder reads back the document the binding printed), and
+      the identity in the suffix is the dispatching contract's, whatever the message claims. *)
+  Theorem wasm_execute_calls_with_raw_payload chs ops id raw caddr claimed pre pick atm :
     let s := run chs ops in
-    let o := OWasmExec id raw caddr pre pick atm in
+    let o := OWasmExec id raw caddr claimed pre pick atm in
     dec_pay (wasm_wrap raw) = Some (hex_encode raw) ->
     Forall is_byte raw ->
     snd (step_res s o) = Ok ->
     exists j c sfx,
       job_at s id = Some j /\ j_modifiable j = true /\ raw <> [] /\
-      queue (step s o) = queue s ++ (if pre then [QValset (j_cref j)] else []) ++ [QCall c] /\
+      queue (step s o) = hook_queue chs (queue s) (j_cref j) pre ++ [QCall c] /\
       pad32 caddr = Some sfx /\ c_payload c = raw ++ sfx /\
       c_sender c = Some caddr /\ c_contractaddr c = Some caddr.
   Proof.
     intros s o Hdec Hbytes Hok.
+    pose proof (run_inv chs ops) as I. fold s in I. rewrite <- (run_chains chs ops) in I. fold s in I.
     destruct (wasm_exec_cases s id raw caddr pre pick atm) as [[E _] | (E & Hid & Hraw)].
     { subst o. cbn [Jobs.step_res] in Hok. rewrite E in Hok. discriminate. }
     unfold Jobs.step. subst o. cbn [Jobs.step_res] in *. rewrite E in *.
@@ -529,17 +810,86 @@ Section Proofs.
     assert (M : j_modifiable j = true) by (apply G; unfold wasm_wrap; reflexivity).
     unfold base_payload in P1. rewrite M, Hdec in P1. inversion P1; subst hx.
     rewrite (from_hex_encode _ Hbytes) in P2. inversion P2; subst b.
-    exists j, c, sfx. rewrite pre_state_queue, <- app_assoc. cbn. repeat split; auto.
+    exists j, c, sfx. unfold pre_state. rewrite (hook_closed _ _ _ I). cbn.
+    subst s. rewrite run_chains. repeat split; auto.
+  Qed.
+
+  (** ** the identity in the suffix is the real caller's *)
+
+  (** who really requested the run: the creator of an authorised MsgExecuteJob, the contract that
+      dispatched the wasm message (not what the message's body says) *)
+  Definition real_caller (o : op) : option bytes :=
+    match o with
+    | OMsgExec cr _ _ _ _ _ _ _ => Some cr
+    | OWasmExec _ _ caddr _ _ _ _ => Some caddr
+    | OLegacyExec _ _ caddr _ _ _ _ => Some caddr
+    | _ => None
+    end.
+
+  Theorem run_suffix_is_real_caller s o a :
+    real_caller o = Some a ->
+    snd (step_res s o) = Ok ->
+    exists q c b sfx,
+      queue (step s o) = q ++ [QCall c] /\
+      pad32 a = Some sfx /\ length sfx = 32%nat /\ c_payload c = b ++ sfx /\
+      c_sender c = Some a /\
+      match o with
+      | OMsgExec _ au ac _ _ _ _ _ => au = true /\ ac = true /\ c_contractaddr c = None
+      | _ => c_contractaddr c = Some a
+      end.
+  Proof.
+    intros R Hok. unfold Jobs.step.
+    assert (X : exists x, exec_req o = Some x /\ x_sender x = Some a /\
+                (match o with
+                 | OMsgExec _ au ac _ _ _ _ _ => au = true /\ ac = true /\ x_contract x = None
+                 | _ => x_contract x = Some a end)).
+    { destruct o as [j vb | x | cr au ac id inp pre pick atm | id raw caddr cl pre pick atm
+                    | id raw caddr cl pre pick atm | c pre | | ]; cbn in R; try discriminate;
+        inversion R; subst; eexists; (split; [reflexivity|]); cbn; repeat split.
+      - cbn [Jobs.step_res] in Hok. unfold Jobs.msg_exec in Hok. now destruct au.
+      - cbn [Jobs.step_res] in Hok. unfold Jobs.msg_exec in Hok. destruct au; [|discriminate]. now destruct ac. }
+    destruct X as (x & Hx & Hs & Hc).
+    destruct (step_res_shape s o) as [e | k vb -> _ _ _ _ _ | x' j c Hx' RF | x' j e _ _ _ | c' pre E | E | E];
+      cbn in Hok; try discriminate; try (subst o; discriminate).
+    rewrite Hx in Hx'. inversion Hx'; subst x'; clear Hx'.
+    destruct RF as [_ _ (hx & b & sfx & _ & _ & P3 & P4) _ _ (I1 & I2 & _) _].
+    unfold caller_of in P3. rewrite Hs in P3.
+    exists (queue (pre_state s x j)), c, b, sfx. cbn.
+    split; [reflexivity|]. split; [exact P3|].
+    split; [now apply pad32_some in P3 as (_ & _ & L)|].
+    split; [exact P4|]. split; [congruence|].
+    destruct o; congruence.
+  Qed.
+
+  (** A job whose payload is not modifiable can never be run by a contract: both bindings always
+      hand a (non-empty) payload document to the keeper, and ScheduleNow refuses it.  Such a run does
+      not happen at all -- nothing is enqueued ([failed_execute_enqueues_none]) -- so this is a
+      restriction of who can run a fixed job, not a run with a wrong call. *)
+  Theorem contract_cannot_run_fixed_job s id raw caddr claimed pre pick atm j :
+    job_at s id = Some j -> j_modifiable j = false ->
+    snd (step_res s (OWasmExec id raw caddr claimed pre pick atm)) <> Ok /\
+    snd (step_res s (OLegacyExec id raw caddr claimed pre pick atm)) <> Ok.
+  Proof.
+    intros J M.
+    assert (K : forall x, x_id x = id -> x_in x = Some (wasm_wrap raw) -> snd (exec s x) <> Ok).
+    { intros x Hi Hin. unfold Jobs.exec, Jobs.exec_raw. rewrite Hi, J, Hin, M. cbn.
+      destruct (x_atomic x); cbn; discriminate. }
+    split; cbn [Jobs.step_res].
+    - destruct (wasm_exec_cases s id raw caddr pre pick atm) as [[E _] | (E & _ & _)]; rewrite E;
+        [cbn; discriminate | now apply K].
+    - destruct (legacy_exec_cases s id raw caddr pre pick atm) as [[E _] | (E & _)]; rewrite E;
+        [cbn; discriminate | now apply K].
   Qed.
 
   (** ** a failed request enqueues no contract call *)
 
   Definition atomic_op (o : op) : bool :=
     match o with
-    | OCreate _ _ => true
     | OExec x => x_atomic x
-    | OWasmExec _ _ _ _ _ atm => atm
-    | OLegacyExec _ _ _ _ _ atm => atm
+    | OMsgExec _ _ _ _ _ _ _ atm => atm
+    | OWasmExec _ _ _ _ _ _ atm => atm
+    | OLegacyExec _ _ _ _ _ _ atm => atm
+    | _ => true
     end.
 
   Theorem failed_execute_enqueues_none chs ops o e :
@@ -549,18 +899,19 @@ Section Proofs.
     calls_of (queue (step s o)) = calls_of (queue s) /\
     (atomic_op o = true -> step s o = s) /\
     (step s o = s \/
-     exists x j, exec_req o = Some x /\ job_at s (x_id x) = Some j /\ x_pre x = true /\
-                 queue (step s o) = queue s ++ [QValset (j_cref j)]).
+     exists x j, exec_req o = Some x /\ x_atomic x = false /\ job_at s (x_id x) = Some j /\
+                 queue (step s o) = hook_queue chs (queue s) (j_cref j) (x_pre x)).
   Proof.
     intros s Herr. unfold Jobs.step.
-    destruct (step_res_shape s o) as [e' | k vb -> _ _ _ _ _ | x j c _ _ | x j e' Hx Hat J]; cbn in Herr;
-      try discriminate; cbn.
+    pose proof (run_inv chs ops) as I. fold s in I. rewrite <- (run_chains chs ops) in I. fold s in I.
+    destruct (step_res_shape s o) as [e' | k vb -> _ _ _ _ _ | x j c _ _ | x j e' Hx Hat J | c' pre E | E | E];
+      cbn in Herr; try discriminate; cbn.
     - repeat split; auto.
     - rewrite pre_state_jobs, pre_state_calls. repeat split; auto.
-      + intros A. destruct o as [? ? | x' | ? ? ? ? ? atm | ? ? ? ? ? atm]; cbn in *; try discriminate;
-          inversion Hx; subst; cbn in *; congruence.
-      + unfold pre_state. destruct (x_pre x) eqn:P; [right | now left].
-        exists x, j. repeat split; auto.
+      + intros A. destruct o as [? ? | x' | ? ? ? ? ? ? ? atm | ? ? ? ? ? ? atm | ? ? ? ? ? ? atm | ? ? | | ];
+          cbn in *; try discriminate; inversion Hx; subst; cbn in *; congruence.
+      + right. exists x, j. repeat split; auto.
+        unfold pre_state. rewrite (hook_closed _ _ _ I). subst s. now rewrite run_chains.
   Qed.
 
   (** a create request never touches a queue *)
@@ -570,15 +921,29 @@ Section Proofs.
     destruct (create_spec s j vb) as [E | (E & _)]; now rewrite E.
   Qed.
 
-  (** calls are never removed from the model queue, and one request adds at most one *)
+  (** calls are never removed from the queue, and one request adds at most one *)
   Theorem at_most_one_call_per_request s o :
     exists l, calls_of (queue (step s o)) = calls_of (queue s) ++ l /\ (length l <= 1)%nat.
   Proof.
-    unfold Jobs.step. destruct (step_res_shape s o); cbn.
-    - exists []. rewrite app_nil_r. auto.
-    - exists []. rewrite app_nil_r. auto.
-    - rewrite calls_of_app, pre_state_calls. cbn. eexists. split; [reflexivity | cbn; lia].
-    - rewrite pre_state_calls. exists []. rewrite app_nil_r. auto.
+    unfold Jobs.step. destruct (step_res_shape s o); cbn;
+      try (exists []; rewrite ?pre_state_calls, ?hook_calls, app_nil_r; auto; fail).
+    rewrite calls_of_app, pre_state_calls. cbn. eexists. split; [reflexivity | cbn; lia].
+  Qed.
+
+  (** the snapshot listener's publication and the block hooks: no job, no call, no other chain's
+      queue is touched *)
+  Theorem environment_steps_touch_only_valset_updates chs ops c pre :
+    let s := run chs ops in
+    jobs (step s (OPublish c pre)) = jobs s /\
+    queue (step s (OPublish c pre)) = hook_queue chs (queue s) c pre /\
+    calls_of (queue (step s (OPublish c pre))) = calls_of (queue s) /\
+    others c (queue (step s (OPublish c pre))) = others c (queue s) /\
+    step s OBlock = s.
+  Proof.
+    intros s. pose proof (run_inv chs ops) as I. fold s in I. rewrite <- (run_chains chs ops) in I. fold s in I.
+    unfold Jobs.step. cbn [Jobs.step_res fst].
+    rewrite hook_jobs, hook_calls, (hook_closed _ _ _ I). subst s. rewrite run_chains.
+    repeat split. apply hook_queue_others.
   Qed.
 
   (** ** every call in the queue is the call of a job that is (still, unchanged) in the store *)
@@ -614,24 +979,34 @@ Section Proofs.
   Qed.
 
   Lemma step_calls_inv s o :
+    o <> OGenesisRoundTrip ->
     Forall (call_of_job (jobs s)) (calls_of (queue s)) ->
     Forall (call_of_job (jobs (step s o))) (calls_of (queue (step s o))).
   Proof.
-    intros Inv. unfold Jobs.step.
-    destruct (step_res_shape s o) as [e | k vb _ _ _ _ _ _ | x j c _ RF | x j e _ _ _]; cbn.
+    intros NG Inv. unfold Jobs.step.
+    destruct (step_res_shape s o) as [e | k vb _ _ _ _ _ _ | x j c _ RF | x j e _ _ _ | c pre _ | E | _]; cbn.
     - exact Inv.
     - eapply Forall_impl; [|exact Inv]. intros c. apply call_of_job_mono.
     - rewrite pre_state_jobs, calls_of_app, pre_state_calls. apply Forall_app. split; [exact Inv|].
       cbn. constructor; [|constructor]. now apply run_facts_call_of_job in RF.
     - now rewrite pre_state_jobs, pre_state_calls.
+    - now rewrite hook_jobs, hook_calls.
+    - contradiction.
+    - exact Inv.
   Qed.
 
+  (** (a genesis round trip of the scheduler module alone would leave queued calls whose jobs are
+      gone: the statement is for histories of requests, publications and block hooks) *)
   Theorem every_call_is_a_stored_jobs_call chs ops c :
+    ~ In OGenesisRoundTrip ops ->
     In c (calls_of (queue (run chs ops))) -> call_of_job (jobs (run chs ops)) c.
   Proof.
+    intros NG.
     assert (H : Forall (call_of_job (jobs (run chs ops))) (calls_of (queue (run chs ops)))).
     { unfold Jobs.run. induction ops as [|o ops IH] using rev_ind; [constructor|].
-      rewrite run_from_snoc. now apply step_calls_inv. }
+      rewrite run_from_snoc. apply step_calls_inv.
+      - intros ->. apply NG. apply in_or_app. right. now left.
+      - apply IH. intros I. apply NG. apply in_or_app. now left. }
     intros Hin. rewrite Forall_forall in H. now apply H.
   Qed.
 End Proofs.
@@ -653,27 +1028,65 @@ Definition ex_contract : bytes := repeat 9 32.
 (* "a9059c" / "ff" *)
 Definition ex_job1 : job := mkJob [106; 49] ex_acct evm_type [1] [200] [97; 57; 48; 53; 57; 99] false false.
 Definition ex_job2 : job := mkJob [106; 50] ex_contract evm_type [2] [201] [102; 102] true true.
+Definition ex_other : bytes := repeat 5 20.
 Definition ex_ops : list op :=
-  [ OCreate ex_job1 true;
+  [ OPublish [1] (Some 1);                                                                  (* first snapshot announced on chain 1 *)
+    OCreate ex_job1 true;
     OCreate ex_job2 true;
     OCreate (mkJob [106; 49] ex_contract evm_type [2] [202] [102; 102] true false) true;   (* duplicate id *)
-    OExec (mkExec [106; 49] None (Some ex_acct) None true (Some 3) true);                   (* account caller, stored payload *)
-    OExec (mkExec [106; 49] (Some [102; 102]) (Some ex_acct) None false (Some 3) true);     (* fixed job, supplied payload: refused *)
-    OWasmExec [106; 50] [1; 2; 255] ex_contract false (Some 4) true;                        (* contract caller, supplied payload *)
-    OExec (mkExec [106; 50] None None (Some ex_contract) true None false);                  (* selection fails after the hook *)
-    OExec (mkExec [106; 50] None (Some (repeat 1 33)) None false (Some 1) true) ].          (* 33-byte sender *)
+    OMsgExec ex_acct true true [106; 49] None (Some 2) (Some 3) true;                       (* account caller, stored payload; hook replaces update 1 by 2 *)
+    OExec (mkExec [106; 49] (Some [102; 102]) (Some ex_acct) None None (Some 3) true);      (* fixed job, supplied payload: refused *)
+    OWasmExec [106; 50] [1; 2; 255] ex_contract ex_other None (Some 4) true;                (* contract caller naming another sender, supplied payload *)
+    OExec (mkExec [106; 50] None None (Some ex_contract) (Some 2) None false);              (* selection fails after the hook *)
+    OExec (mkExec [106; 50] None (Some (repeat 1 33)) None None (Some 1) true);             (* 33-byte sender *)
+    OMsgExec ex_other false true [106; 49] None None (Some 3) true;                         (* creator not authorised by the signers *)
+    OMsgExec ex_other true false [106; 49] None None (Some 3) true;                         (* creator without account: panic *)
+    OMsgExec ex_acct true true [106; 49] None (Some 2) (Some 3) true;                       (* hook: update 2 already queued, nothing to do *)
+    OLegacyExec [106; 49] [1] ex_contract ex_other None (Some 4) true;                      (* a contract cannot run a fixed job *)
+    OBlock;
+    OGenesisRoundTrip;
+    OCreate (mkJob [106; 49] ex_other evm_type [2] [202] [102; 102] true false) true ].     (* the id is free again *)
 
 Example ex_history :
-  let s := run ex_dec_def ex_dec_pay ex_chs ex_ops in
+  let s := run ex_dec_def ex_dec_pay ex_chs (firstn 14 ex_ops) in
   jobs s = [ex_job1; ex_job2] /\
   queue s =
-    [ QValset [1];
+    [ QValset [1] [91] 2;
       QCall (mkCall [1] [91] [200] [] ([169; 5; 156] ++ repeat 0 12 ++ ex_acct) (Some ex_acct) None false 3);
       QCall (mkCall [2] [92] [201] [] ([1; 2; 255] ++ ex_contract) (Some ex_contract) (Some ex_contract) true 4);
-      QValset [2] ] /\
-  map (fun k => snd (step_res ex_dec_def ex_dec_pay (run ex_dec_def ex_dec_pay ex_chs (firstn k ex_ops)) (nth k ex_ops (OCreate ex_job1 false))))
-      [0; 1; 2; 3; 4; 5; 6; 7]%nat
-  = [Ok; Ok; Err ERejected; Ok; Err ECannotModify; Ok; Err EPick; Err EPad].
+      QValset [2] [92] 2;
+      QCall (mkCall [1] [91] [200] [] ([169; 5; 156] ++ repeat 0 12 ++ ex_acct) (Some ex_acct) None false 3) ] /\
+  queue (run ex_dec_def ex_dec_pay ex_chs (firstn 5 ex_ops)) =
+    [ QValset [1] [91] 2;
+      QCall (mkCall [1] [91] [200] [] ([169; 5; 156] ++ repeat 0 12 ++ ex_acct) (Some ex_acct) None false 3) ] /\
+  map (fun k => snd (step_res ex_dec_def ex_dec_pay (run ex_dec_def ex_dec_pay ex_chs (firstn k ex_ops)) (nth k ex_ops OBlock)))
+      [0; 1; 2; 3; 4; 5; 6; 7; 8; 9; 10; 11; 12; 13; 14; 15]%nat
+  = [Ok; Ok; Ok; Err ERejected; Ok; Err ECannotModify; Ok; Err EPick; Err EPad; Err EUnauthorised; Err EPanic; Ok;
+     Err ECannotModify; Ok; Ok; Ok].
+Proof. vm_compute. repeat split. Qed.
+
+(** Across a genesis export / import the job under an id is NOT preserved: the store is emptied,
+    and the id can be taken by another owner with another contract.  (Replayed on the real keeper:
+    harness/corpus/C17/genesis_round_trip_drops_jobs.json.)  This is why [job_immutable] excludes
+    that one operation, which is not a request. *)
+Example job_immutable_across_genesis_round_trip_refuted :
+  job_at (run ex_dec_def ex_dec_pay ex_chs (firstn 14 ex_ops)) [106; 49] = Some ex_job1 /\
+  job_at (run ex_dec_def ex_dec_pay ex_chs (firstn 15 ex_ops)) [106; 49] = None /\
+  job_at (run ex_dec_def ex_dec_pay ex_chs ex_ops) [106; 49] =
+    Some (mkJob [106; 49] ex_other evm_type [2] [202] [102; 102] true false).
+Proof. vm_compute. repeat split. Qed.
+
+(** SendValsetMsgForChain on queues outside the invariant (they do not arise from histories, the
+    model function is nevertheless the code's): a message with another turnstone id stops the scan
+    -- the update deleted before it stays deleted and nothing is appended; an update with the same
+    id stops it as well. *)
+Example ex_send_valset_foreign_turnstone :
+  send_valset [1] [91] 3 [QValset [1] [91] 1; QValset [1] [90] 2; QValset [1] [91] 2] =
+    [QValset [1] [90] 2; QValset [1] [91] 2] /\
+  send_valset [1] [91] 3 [QValset [1] [91] 1; QValset [1] [91] 3; QValset [1] [91] 2] =
+    [QValset [1] [91] 3; QValset [1] [91] 2] /\
+  send_valset [1] [91] 3 [QValset [1] [91] 1; QValset [2] [92] 1; QValset [1] [91] 2] =
+    [QValset [2] [92] 1; QValset [1] [91] 3].
 Proof. vm_compute. repeat split. Qed.
 
 (** the hypotheses of the contract-path theorem are satisfiable *)
